@@ -26,23 +26,38 @@ import (
 
 func init() {
 	register(&Prop{ID: "C18", Run: runC18, Workers: 1, MinNontrivial: 1000, RaceSecondPass: true,
-		Rule:        "one process, 16 goroutines: N direct uuid.NewV4 draws and M built messages (AuthnRequest, LogoutRequest, LogoutResponse, signed and unsigned, across many SP instances, incl. providers copied by value after use) plus a single-goroutine phase in which the random source delivers short reads of 1/5/8/15 bytes with crypto/rand.Reader replaced at start by a pass-through spy that records every read and whether its stack contains uuid.NewV4; oracle: canonical lower-case 8-4-4-4-12 form, version 4, variant 10, message ID = '_' + UUID (an NCName), all identifiers distinct, every UUID's 122 free bits equal a 16-byte read delivered by the spy inside NewV4 (each read consumed exactly once), every free bit set in 45-55% of draws; a case = one batch of draws; non-trivial/distinct counts are identifiers checked; a phase with crypto/rand.Reader failing (after 0/7/15 bytes): no message may be emitted; providers whose signing context was tuned (IdAttribute, Prefix); a phase with a signer that fails on demand (identifiers handed out around failures must be fresh); AuthRedirect fed requests with correlation headers; entropy draws sharing a prefix with the previous draw; one provider shared by all goroutines under a non-monotonic clock",
+		Rule:        "one process, 16 goroutines: N direct uuid.NewV4 draws and M built messages (AuthnRequest, LogoutRequest, LogoutResponse, signed and unsigned, across many SP instances, incl. providers copied by value after use) plus a single-goroutine phase in which the random source delivers short reads of 1/5/8/15 bytes with crypto/rand.Reader replaced at start by a pass-through spy that records every read and whether its stack contains uuid.NewV4; oracle: canonical lower-case 8-4-4-4-12 form, version 4, variant 10, message ID = '_' + UUID (an NCName), all identifiers distinct, every UUID's 122 free bits equal a 16-byte read delivered by the spy inside NewV4 (each read consumed exactly once), every free bit set in 45-55% of draws; a case = one batch of draws; non-trivial/distinct counts are identifiers checked; a phase with crypto/rand.Reader failing (after 0/7/15 bytes): no message may be emitted; providers whose signing context was tuned (IdAttribute, Prefix); a phase with a signer that fails on demand (identifiers handed out around failures must be fresh); AuthRedirect fed requests with correlation headers; entropy draws sharing a prefix with the previous draw; one provider shared by all goroutines under a non-monotonic clock; a source that delivers every block twice (form and provenance only); caller arguments equal to the identifier about to be drawn",
 		Assumptions: []string{"unpredictable is decided as: taken unmodified from crypto/rand.Reader; the quality of the kernel source is trusted", "the bit-balance bound is >30 sigma wide at the quick tier's sample size"}})
 }
 
 type randSpy struct {
-	inner   io.Reader
-	fail    atomic.Int64 // when > 0, every Read fails after delivering fail-1 bytes
-	echo    atomic.Int64 // when > 0, every second 16-byte read inside uuid.NewV4 starts with the first `echo` bytes of the previous one
-	last    [16]byte     // (echo mode, single goroutine)
-	echoN   int
-	chunk   atomic.Int64 // when > 0, deliver at most this many bytes per Read (a legal io.Reader behaviour)
-	stream  []byte       // in chunk mode: every byte delivered inside uuid.NewV4, in order (single goroutine)
-	mu      sync.Mutex
-	uuidRds map[[16]byte]int // masked 16-byte reads made from inside uuid.NewV4
-	reads   atomic.Int64
-	inUUID  atomic.Int64
-	other   atomic.Int64
+	inner     io.Reader
+	fail      atomic.Int64 // when > 0, every Read fails after delivering fail-1 bytes
+	echo      atomic.Int64 // when > 0, every second 16-byte read inside uuid.NewV4 starts with the first `echo` bytes of the previous one
+	last      [16]byte     // (echo mode, single goroutine)
+	echoN     int
+	repeat    atomic.Int64 // when > 0, every second 16-byte read inside uuid.NewV4 is a copy of the one before
+	repN      int
+	repBlocks map[[16]byte]bool // masked blocks delivered in repeat mode
+	pending   []byte            // a 16-byte block fetched in advance (Foresee): the next 16-byte read inside uuid.NewV4 gets it
+	chunk     atomic.Int64      // when > 0, deliver at most this many bytes per Read (a legal io.Reader behaviour)
+	stream    []byte            // in chunk mode: every byte delivered inside uuid.NewV4, in order (single goroutine)
+	mu        sync.Mutex
+	uuidRds   map[[16]byte]int // masked 16-byte reads made from inside uuid.NewV4
+	reads     atomic.Int64
+	inUUID    atomic.Int64
+	other     atomic.Int64
+}
+
+// Foresee fetches the block the next uuid.NewV4 call will be given and returns the identifier it makes.
+func (s *randSpy) Foresee() string {
+	b := make([]byte, 16)
+	io.ReadFull(s.inner, b)
+	s.pending = b
+	var a [16]byte
+	copy(a[:], b)
+	a = maskV4(a)
+	return fmt.Sprintf("%x-%x-%x-%x-%x", a[0:4], a[4:6], a[6:8], a[8:10], a[10:16])
 }
 
 func maskV4(b [16]byte) [16]byte {
@@ -64,8 +79,6 @@ func (s *randSpy) Read(p []byte) (int, error) {
 	if c := int(s.chunk.Load()); c > 0 && len(p) > c {
 		p = p[:c]
 	}
-	n, err := s.inner.Read(p)
-	s.reads.Add(1)
 	pc := make([]uintptr, 12)
 	k := runtime.Callers(2, pc)
 	fr := runtime.CallersFrames(pc[:k])
@@ -79,6 +92,29 @@ func (s *randSpy) Read(p []byte) (int, error) {
 		if !more {
 			break
 		}
+	}
+	var n int
+	var err error
+	if in && len(p) == 16 && s.pending != nil {
+		// (single-goroutine phase) the block the harness has looked at in advance
+		n = copy(p, s.pending)
+		s.pending = nil
+	} else {
+		n, err = s.inner.Read(p)
+	}
+	s.reads.Add(1)
+	if s.repeat.Load() > 0 && in && n == 16 && len(p) == 16 {
+		// (single-goroutine phase) the source delivers every block twice in a row, as after the snapshot of a virtual
+		// machine was resumed twice: identifiers may then repeat, each is still a well-formed one made of a delivered block
+		s.repN++
+		if s.repN%2 == 0 {
+			copy(p, s.last[:])
+		}
+		copy(s.last[:], p)
+		var b [16]byte
+		copy(b[:], p)
+		s.repBlocks[maskV4(b)] = true
+		return n, err
 	}
 	if in && s.chunk.Load() > 0 {
 		s.mu.Lock()
@@ -161,7 +197,7 @@ func fastParseUUID(s string) ([16]byte, bool) {
 }
 
 func runC18(c *mon.Ctx) {
-	spy := &randSpy{inner: crand.Reader, uuidRds: map[[16]byte]int{}}
+	spy := &randSpy{inner: crand.Reader, uuidRds: map[[16]byte]int{}, repBlocks: map[[16]byte]bool{}}
 	crand.Reader = spy
 	defer func() { crand.Reader = spy.inner }()
 
@@ -336,6 +372,59 @@ func runC18(c *mon.Ctx) {
 		}
 	}
 	spy.echo.Store(0)
+	// phase 4c: the source delivers every block twice in a row. Identifiers then repeat (the library cannot know), but
+	// every one of them is still a well-formed version-4 identifier made of a delivered block, in every message kind
+	var repIDs []string
+	{
+		sp, _, _ := NewSP(BaseTime(c.Seed))
+		spy.repeat.Store(1)
+		for i := 0; i < c.N(240, 3000); i++ {
+			switch i % 4 {
+			case 0:
+				repIDs = append(repIDs, "_"+uuid.NewV4().String())
+			case 1:
+				if doc, err := sp.BuildAuthRequestDocumentNoSig(); err == nil {
+					repIDs = append(repIDs, doc.Root().SelectAttrValue("ID", ""))
+				}
+			case 2:
+				if doc, err := sp.BuildLogoutRequestDocumentNoSig("u", "s"); err == nil {
+					repIDs = append(repIDs, doc.Root().SelectAttrValue("ID", ""))
+				}
+			case 3:
+				if doc, err := sp.BuildLogoutResponseDocumentNoSig(saml2.StatusCodeSuccess, "_r"); err == nil {
+					repIDs = append(repIDs, doc.Root().SelectAttrValue("ID", ""))
+				}
+			}
+		}
+		spy.repeat.Store(0)
+	}
+	// phase 4d: the caller-supplied strings (the request being answered, the name and session being logged out) happen
+	// to equal the identifier the message is about to be given
+	var foreseenIDs []string
+	{
+		sp, _, _ := NewSP(BaseTime(c.Seed))
+		for i := 0; i < c.N(120, 1500); i++ {
+			next := "_" + spy.Foresee()
+			var doc *etree.Document
+			var err error
+			switch i % 3 {
+			case 0:
+				doc, err = sp.BuildLogoutResponseDocumentNoSig(saml2.StatusCodeSuccess, next)
+			case 1:
+				doc, err = sp.BuildLogoutRequestDocumentNoSig(next, next)
+			case 2:
+				sp.ServiceProviderIssuer = next
+				doc, err = sp.BuildAuthRequestDocumentNoSig()
+			}
+			if spy.pending != nil {
+				spy.pending = nil // the builder drew nothing
+				continue
+			}
+			if err == nil && doc != nil && doc.Root() != nil {
+				foreseenIDs = append(foreseenIDs, doc.Root().SelectAttrValue("ID", ""))
+			}
+		}
+	}
 
 	// phase 5: the entropy source fails (nothing delivered, or a partial read, then an error). No message may be
 	// emitted then: its identifier could not hold 122 fresh random bits. An error or a panic is the only honest outcome.
@@ -485,6 +574,24 @@ func runC18(c *mon.Ctx) {
 		check(s, false)
 	}
 	c.Count("identifiers_from_prefix_sharing_draws", int64(len(echoIDs)))
+	for _, id := range repIDs {
+		b, ok := fastParseUUID(strings.TrimPrefix(id, "_"))
+		switch {
+		case !strings.HasPrefix(id, "_") || !uuidRe.MatchString(id[1:]) || !ok:
+			cs.Violation("identifier-format", "with a source repeating its blocks the identifier %q was produced: not '_' + a canonical version-4 variant-1 UUID", id)
+		case !spy.repBlocks[b]:
+			cs.Violation("not-from-crypto-rand", "identifier %s (source repeating its blocks) is made of no block the source delivered", id)
+		}
+	}
+	c.Count("identifiers_from_a_repeating_source", int64(len(repIDs)))
+	for _, id := range foreseenIDs {
+		if !strings.HasPrefix(id, "_") {
+			cs.Violation("identifier-format", "message ID %q (built from arguments equal to the identifier it was about to get) does not start with an underscore", id)
+			continue
+		}
+		check(id[1:], true)
+	}
+	c.Count("identifiers_equal_to_a_caller_argument", int64(len(foreseenIDs)))
 	for _, id := range afterFailure {
 		if !strings.HasPrefix(id, "_") {
 			cs.Violation("identifier-format", "message ID %q built around a signing failure does not start with an underscore", id)
